@@ -157,7 +157,10 @@ PROPS['C11'] = prop(
     level_text='Data structure against abstract view: every CachingStreamWrapper operation preserves the representation '
                'invariant (cache == raw[dropped:obtained]) and behaves like a seekable stream over the same octets '
                '(read/peek/tell/seek proved for all states and sizes, DEFAULT_BUFFER_SIZE abstracted to K >= 1); one '
-               'recorded finding (mark renumbering). Substrate kinds and operation histories are bounded stand-ins.',
+               'recorded finding (tell() of the wrapper itself restarts from 0 at a mark, pinned by a test). The wrapper counts what '
+               'it drops: tell() + droppedOctets is the position in the underlying stream (invariant of every operation), which is '
+               'what the decoders measure lengths with (contract _consumed, structural obligation lengths-measured-with-consumed). '
+               'Substrate kinds and operation histories are bounded stand-ins.',
     contracts=WRAPPER + READS[:2], tables=[],
     standins=[dict(module='standins.stream_checks', checks='substrate-kinds,wrapper-histories',
                    bound='220 pairs + encodings of 8191/8192/8193/24576 octets, deep and wide; 7 substrate kinds; 400 (quick) / 6000 random histories of <= 8 operations')],
@@ -330,6 +333,14 @@ PROPS['C12']['contracts'] = PROPS['C12']['contracts'] + BASE[1:]
 for _p in ('C18', 'C01'):
     PROPS[_p]['contracts'] = PROPS[_p]['contracts'] + [(E, 'ber.encoder::SequenceOfEncoder._encodeComponents[value-object,any-size,wrap-type]'),
                                                        (E, 'ber.encoder::_isValueOf')]
+# exact comparison of REAL values (fix 07c7cc8): normal form computed by Real.__factors, __eq__ compares normal forms
+UR = 'contracts.univ_real'
+for _p in ('C01', 'C03', 'C04'):
+    PROPS[_p]['contracts'] = PROPS[_p]['contracts'] + [(UR, 'type.univ::Real.__factors'), (UR, 'type.univ::Real.__eq__[real-vs-real]')]
+# the drop-proof position (fix 0928f1d)
+for _p in ('C11', 'C05', 'C07'):
+    PROPS[_p]['contracts'] = PROPS[_p]['contracts'] + [(ST, 'codec.streaming::CachingStreamWrapper.droppedOctets.getter'),
+                                                       (ST, 'ber.decoder::_consumed')]
 # the caller's openTypes map is only read (C12-m8b)
 PROPS['C12']['contracts'] = PROPS['C12']['contracts'] + [
     (D, 'ber.decoder::ConstructedPayloadDecoderBase.valueDecoder@open-types[any-size]'),
